@@ -33,6 +33,29 @@ impl MetricValue for Rep {
     type Unit = metrique_writer::unit::None;
 }
 
+/// A value that reports SEVERAL observations in one metric() call (a per-batch summary): single
+/// ones, repeated ones, and zero-occurrence ones anywhere in the list
+#[derive(Clone, Debug)]
+struct Multi(Vec<(f64, u64)>);
+impl Value for Multi {
+    fn write(&self, writer: impl ValueWriter) {
+        writer.metric(
+            self.0.iter().map(|(v, n)| match n {
+                1 if v.fract() == 0.0 && *v < 9.0e15 && v.to_bits() % 2 == 0 => Observation::Unsigned(*v as u64),
+                1 => Observation::Floating(*v),
+                0 => Observation::Repeated { total: *v, occurrences: 0 },
+                n => Observation::Repeated { total: v * *n as f64, occurrences: *n },
+            }),
+            Unit::None,
+            [],
+            MetricFlags::empty(),
+        )
+    }
+}
+impl MetricValue for Multi {
+    type Unit = metrique_writer::unit::None;
+}
+
 /// what a source value contributes: (value, count) pairs, via the same Value impl the histogram sees
 fn contributions<T: Value>(v: &T) -> Vec<(f64, u64)> {
     match record_value(v) {
@@ -426,7 +449,7 @@ fn gen_value(rng: &mut Rng, bounds: &[u64]) -> f64 {
 
 fn run_random(rng: &mut Rng, bounds: &[u64], rep: &Report) -> bool {
     let n = 1 + rng.usize_below(if is_miri() { 6 } else { 300 });
-    let kind = rng.below(8);
+    let kind = rng.below(9);
     let ctx = format!("source kind {kind}, {n} values");
     let ok = match kind {
         0 => {
@@ -458,6 +481,13 @@ fn run_random(rng: &mut Rng, bounds: &[u64], rep: &Report) -> bool {
             let nanos: Vec<u128> = d.iter().map(|d| d.as_nanos()).collect();
             let v: Vec<AsMicroseconds<Duration>> = d.into_iter().map(AsMicroseconds::from).collect();
             check_duration_sources(&v, &nanos, 1e3, &ctx, rep) && case(&v, true, &ctx, rep)
+        }
+        8 => {
+            // several observations per write, zero-occurrence ones in any position
+            let v: Vec<Multi> = (0..n.min(30))
+                .map(|_| Multi((0..1 + rng.below(6)).map(|_| (gen_value(rng, bounds), match rng.below(5) { 0 => 0, 1 => 2 + rng.below(20), _ => 1 })).collect()))
+                .collect();
+            case(&v, true, &ctx, rep)
         }
         6 => {
             // repeated observations with small counts (also through sort-and-merge)
